@@ -717,7 +717,9 @@ class World(object):
         for sim in self.sims.values():
             for port_triggers in sim.triggers.values():
                 for dest_sim, delay in port_triggers:
-                    dest_sim.triggering_ancestors[sim] = delay
+                    dest_sim.triggering_ancestors[sim] = min(
+                        dest_sim.triggering_ancestors.get(sim, delay), delay
+                    )
                     dirty.add(dest_sim)
         while dirty:
             sim = dirty.pop()
